@@ -602,8 +602,8 @@ def enumerate_cases(tier):
                 combos += [(i, f) for f in faults[shapes[i]]]
             for at, f in combos:
                 idx += 1
-                if n == 5 and idx % 5 != 0:
-                    continue        # histories of 5 calls: every fifth (439k sessions do not fit the time limit)
+                if n == 5 and idx % 8 != 0:
+                    continue        # histories of 5 calls: every eighth (439k sessions do not fit the time limit)
                 yield {"shapes": list(shapes), "at": at, "fault": f, "close": ("ctx", "explicit")[idx % 2],
                        "target": ("bytesio", "path")[(idx // 2) % 2], "chain": chains[(idx // 4) % len(chains)],
                        "enc": idx % 7 == 0}
@@ -629,7 +629,7 @@ def run(ctx):
                        "or for good, writeall root missing / member failing); close mode, BytesIO/path target and filter "
                        "chain rotate over the cases; non-trivial = a fault is injected or the history has more than one call; "
                        "distinct by (shapes, fault, position, close, target, chain)" % (
-                           (3, "") if tier == "quick" else (5, " (of 5 calls: every fifth, plus 4000 random ones over all chains)")))
+                           (3, "") if tier == "quick" else (5, " (of 5 calls: every eighth, plus 4000 random ones over all chains)")))
     cases = list(enumerate_cases(tier))
     if tier != "quick":
         # the extra dimension sampled: every chain / close / target on random histories
